@@ -25,6 +25,8 @@ enum RhsTy {
     /// written as `Self` (owned lhs only)
     SameAsSelfKw,
     Other,
+    /// `&'a B` with an EXPLICIT lifetime: documented / implemented as an opaque by-value operand type
+    OtherLt,
 }
 
 #[derive(Clone, Debug)]
@@ -38,17 +40,24 @@ struct Case {
     generic: bool,
     /// `#[derive_ex(OpAssign, Op)]` instead of `#[derive_ex(Op, OpAssign)]`
     assign_first: bool,
+    /// uses of `Self` in the user's bounds: 0 none, 1 where-clause predicate `Self: Sized`, 2 (generic) inline
+    /// bound `T: Rel<Self>` where `Rel` is implemented exactly for the base impl's own Self type
+    self_where: usize,
 }
 
 fn gen(ch: &mut Ch, thorough: bool) -> Option<Case> {
     let op = ch.pick(10);
     let bases = [Base::Binary(false, false), Base::Binary(false, true), Base::Binary(true, false), Base::Binary(true, true), Base::Assign(false), Base::Assign(true)];
     let base = *ch.of(&bases);
-    let rhs = *ch.of(&[RhsTy::SameExplicit, RhsTy::Other, RhsTy::SameOmitted, RhsTy::SameAsSelfKw]);
+    let rhs = *ch.of(&[RhsTy::SameExplicit, RhsTy::Other, RhsTy::SameOmitted, RhsTy::SameAsSelfKw, RhsTy::OtherLt]);
     let req = ch.pick(3); // 0 {Op}, 1 {OpAssign}, 2 {Op, OpAssign}
     let generic = ch.flag();
     let assign_first = ch.flag();
     if assign_first && req != 2 {
+        return None;
+    }
+    let self_where = ch.pick(3);
+    if self_where == 2 && !generic {
         return None;
     }
     let (want_binary, want_assign) = match req {
@@ -72,6 +81,11 @@ fn gen(ch: &mut Ch, thorough: bool) -> Option<Case> {
             Base::Binary(false, true) | Base::Assign(true) => {}
             _ => return None,
         },
+        // the reference is part of the operand TYPE: modelled as a by-value Rhs
+        RhsTy::OtherLt => match base {
+            Base::Binary(_, false) | Base::Assign(false) => {}
+            _ => return None,
+        },
         _ => {}
     }
     if !thorough {
@@ -83,8 +97,14 @@ fn gen(ch: &mut Ch, thorough: bool) -> Option<Case> {
         if full && op == 8 && generic {
             return None;
         }
+        if !full && self_where != 0 {
+            return None;
+        }
+        if op == 8 && rhs == RhsTy::OtherLt {
+            return None;
+        }
     }
-    Some(Case { vector: ch.vector(), op, base, rhs, want_binary, want_assign, generic, assign_first })
+    Some(Case { vector: ch.vector(), op, base, rhs, want_binary, want_assign, generic, assign_first, self_where })
 }
 
 fn build(c: &Case, tier: &str) -> XCase {
@@ -92,13 +112,26 @@ fn build(c: &Case, tier: &str) -> XCase {
     let tra = format!("{tr}Assign");
     let fa = format!("{f}_assign");
     let g = if c.generic { "<T>" } else { "" };
-    let gi = if c.generic { "<T: ::core::clone::Clone>" } else { "" };
-    let wh = if c.generic { " where T: ::core::default::Default" } else { "" };
+    let has_lt = c.rhs == RhsTy::OtherLt;
+    let gi = match (c.generic, has_lt, c.self_where == 2) {
+        (true, false, false) => "<T: ::core::clone::Clone>",
+        (true, true, false) => "<'a, T: ::core::clone::Clone>",
+        (true, false, true) => "<T: ::core::clone::Clone + Rel<Self>>",
+        (true, true, true) => "<'a, T: ::core::clone::Clone + Rel<Self>>",
+        (false, true, _) => "<'a>",
+        (false, false, _) => "",
+    };
+    let wh = match (c.generic, c.self_where == 1) {
+        (true, true) => " where T: ::core::default::Default, Self: ::core::marker::Sized",
+        (true, false) => " where T: ::core::default::Default",
+        (false, true) => " where Self: ::core::marker::Sized",
+        (false, false) => "",
+    };
     let a_ty = format!("A{g}");
-    let same = c.rhs != RhsTy::Other;
+    let same = !matches!(c.rhs, RhsTy::Other | RhsTy::OtherLt);
     let b_ty = if same { a_ty.clone() } else { format!("B{g}") };
     let conc = if c.generic { "<u8>" } else { "" };
-    let (a_c, b_c) = (format!("A{conc}"), if same { format!("A{conc}") } else { format!("B{conc}") });
+    let (a_c, b_c) = (format!("A{conc}"), if same { format!("A{conc}") } else if has_lt { format!("&'static B{conc}") } else { format!("B{conc}") });
     let mut s = String::new();
     s.push_str("use derive_ex::derive_ex;\nuse ::core::marker::PhantomData;\n");
     for n in ["A", "B"] {
@@ -106,6 +139,15 @@ fn build(c: &Case, tier: &str) -> XCase {
             s.push_str(&format!("#[derive(Debug)] pub struct {n}<T>(pub String, pub PhantomData<T>);\nimpl<T> Clone for {n}<T> {{ fn clone(&self) -> Self {{ dxrt::log(format!(\"clone{n}[{{}}]\", self.0)); {n}(self.0.clone(), PhantomData) }} }}\n"));
         } else {
             s.push_str(&format!("#[derive(Debug)] pub struct {n}(pub String, pub PhantomData<u8>);\nimpl Clone for {n} {{ fn clone(&self) -> Self {{ dxrt::log(format!(\"clone{n}[{{}}]\", self.0)); {n}(self.0.clone(), PhantomData) }} }}\n"));
+        }
+    }
+    if c.self_where == 2 {
+        // implemented for the base impl's own Self type only
+        let base_self_is_ref = matches!(c.base, Base::Binary(true, _));
+        if base_self_is_ref {
+            s.push_str("pub trait Rel<X> {}\nimpl<'x, T> Rel<&'x A<T>> for T {}\n");
+        } else {
+            s.push_str("pub trait Rel<X> {}\nimpl<T> Rel<A<T>> for T {}\n");
         }
     }
     let mut list = Vec::new();
@@ -125,9 +167,10 @@ fn build(c: &Case, tier: &str) -> XCase {
             let rt_written = match c.rhs {
                 RhsTy::SameOmitted => String::new(),
                 RhsTy::SameAsSelfKw => if br { "<&Self>".to_string() } else { "<Self>".to_string() },
+                RhsTy::OtherLt => format!("<&'a {b_ty}>"),
                 _ => format!("<{}{}>", if br { "&" } else { "" }, b_ty),
             };
-            let rt = format!("{}{}", if br { "&" } else { "" }, b_ty);
+            let rt = if has_lt { format!("&'a {b_ty}") } else { format!("{}{}", if br { "&" } else { "" }, b_ty) };
             let out_ty = if !bl && c.rhs == RhsTy::SameAsSelfKw { "Self".to_string() } else { a_ty.clone() };
             s.push_str(&format!("impl{gi} ::core::ops::{tr}{rt_written} for {lt}{wh} {{\n    type Output = {out_ty};\n    fn {f}(self, rhs: {rt}) -> {a_ty} {{ dxrt::log(\"base\".to_string()); A(format!(\"({{}}{sym}{{}})\", self.0, rhs.0), PhantomData) }}\n}}\n"));
         }
@@ -135,14 +178,15 @@ fn build(c: &Case, tier: &str) -> XCase {
             let rt_written = match c.rhs {
                 RhsTy::SameOmitted => String::new(),
                 RhsTy::SameAsSelfKw => if br { "<&Self>".to_string() } else { "<Self>".to_string() },
+                RhsTy::OtherLt => format!("<&'a {b_ty}>"),
                 _ => format!("<{}{}>", if br { "&" } else { "" }, b_ty),
             };
-            let rt = format!("{}{}", if br { "&" } else { "" }, b_ty);
+            let rt = if has_lt { format!("&'a {b_ty}") } else { format!("{}{}", if br { "&" } else { "" }, b_ty) };
             s.push_str(&format!("impl{gi} ::core::ops::{tra}{rt_written} for {a_ty}{wh} {{\n    fn {fa}(&mut self, rhs: {rt}) {{ dxrt::log(\"base\".to_string()); self.0 = format!(\"({{}}{sym}={{}})\", self.0, rhs.0); }}\n}}\n"));
         }
     }
     s.push_str(&format!("type SA = {a_c};\ntype SB = {b_c};\n"));
-    s.push_str(&format!("fn mka(i: usize) -> SA {{ A([\"x\", \"y\", \"z\"][i].to_string(), PhantomData) }}\nfn mkb(i: usize) -> SB {{ {}([\"p\", \"q\", \"r\"][i].to_string(), PhantomData) }}\n", if same { "A" } else { "B" }));
+    s.push_str(&format!("fn mka(i: usize) -> SA {{ A([\"x\", \"y\", \"z\"][i].to_string(), PhantomData) }}\nfn mkb(i: usize) -> SB {{ {}{}([\"p\", \"q\", \"r\"][i].to_string(), PhantomData){} }}\n", if has_lt { "Box::leak(Box::new(" } else { "" }, if same { "A" } else { "B" }, if has_lt { "))" } else { "" }));
     s.push_str("fn logs() -> String { let mut l = dxrt::take_log(); l.sort(); l.join(\",\") }\n");
     s.push_str("pub fn run() -> String {\n    let mut out = String::new();\n    for i in 0..3usize { for j in 0..3usize {\n");
     let mut exp = String::new();
@@ -193,7 +237,7 @@ fn build(c: &Case, tier: &str) -> XCase {
                         if l && !bl {
                             log.push(format!("cloneA[{}]", av[i]));
                         }
-                        if r && !br {
+                        if r && !br && !has_lt {
                             log.push(format!("clone{bname}[{}]", bv[j]));
                         }
                         (format!("({}{}{})", av[i], sym, bv[j]), log)
@@ -210,7 +254,7 @@ fn build(c: &Case, tier: &str) -> XCase {
                         if !bl {
                             log.push(format!("cloneA[{}]", av[i]));
                         }
-                        if r && !br {
+                        if r && !br && !has_lt {
                             log.push(format!("clone{bname}[{}]", bv[j]));
                         }
                         (format!("({}{}{})", av[i], sym, bv[j]), log)
@@ -228,7 +272,8 @@ fn build(c: &Case, tier: &str) -> XCase {
     atoms.insert(format!("rhs={:?}", c.rhs));
     atoms.insert(format!("requested={}", list.join("+")));
     atoms.insert(format!("generic={}", c.generic));
-    let desc = format!("derive_ex({}) on user impl base {:?} rhs {:?}{}", list.join(", "), c.base, c.rhs, if c.generic { " generic" } else { "" });
+    atoms.insert(format!("self_in_where={}", c.self_where));
+    let desc = format!("derive_ex({}) on user impl base {:?} rhs {:?}{}", list.join(", "), c.base, c.rhs, if c.generic { " generic" } else { "" }).to_string() + ["", " where Self: Sized", " T: Rel<Self>"][c.self_where];
     XCase {
         text: s.clone(),
         code: s,
@@ -245,7 +290,7 @@ fn build(c: &Case, tier: &str) -> XCase {
 
 pub fn run(ctx: &Ctx, rep: &mut Report) {
     let thorough = ctx.tier.is_thorough();
-    rep.rule = "terminal state = (operator, base form of the user impl [A|&A x Rhs|&Rhs, or OpAssign<Rhs|&Rhs>], Rhs type [Self omitted / written / `Self` keyword / another type], requested set {Op},{OpAssign},{Op,OpAssign}, generic or not); inner enumeration = all 9 operand pairs x every owned/reference form that exists; distinct by program text; every case is non-trivial (user bodies are non-commutative and log calls and clones)".into();
+    rep.rule = "terminal state = (operator, base form of the user impl [A|&A x Rhs|&Rhs, or OpAssign<Rhs|&Rhs>], Rhs type [Self omitted / written / `Self` keyword / another type / a reference to another type with an explicit lifetime (an opaque by-value operand)], requested set {Op},{OpAssign},{Op,OpAssign} in both list orders, generic or not, user bounds without `Self`, with a where-clause predicate on `Self`, or (generic) an inline bound `T: Rel<Self>` that only the base impl's own Self type satisfies); inner enumeration = all 9 operand pairs x every owned/reference form that exists; distinct by program text; every case is non-trivial (user bodies are non-commutative and log calls and clones)".into();
     rep.assumptions = vec!["reference: each form returns the user's result for the same operands in the same order, the user impl is called exactly once, an operand is cloned exactly once and only when received by reference (or as &mut self) but needed by value; op= from op equals a = a op b; op from op= equals {a op= b; a}; call/clone logs compared as multisets".into()];
     let mut cases = Vec::new();
     if let Some(p) = &ctx.replay {
